@@ -19,6 +19,14 @@
 
 
 
+#include <new>
+
+
+
+#include <xercesc/util/OutOfMemoryException.hpp>
+
+
+
 #include "xercesc/sax/ErrorHandler.hpp"
 #include "xercesc/sax/SAXParseException.hpp"
 
@@ -212,6 +220,16 @@ parseDoc(
                     uri,
                     base,
                     &theErrorHandler);
+    }
+    catch(const xercesc::OutOfMemoryException&)
+    {
+        // Not a problem with the document: don't turn an
+        // out-of-memory condition into an empty node-set.
+        throw;
+    }
+    catch(const std::bad_alloc&)
+    {
+        throw;
     }
     catch(...)
     {
